@@ -111,7 +111,7 @@ CHECKS["C13"] = {
 CHECKS["C14"] = {
     "engine": "E1 lattice explorer",
     "jobs": lambda tier: per_dim("C14.cpp", "C14", tier, quick=(1, 2, 3, 4), thorough=(1, 2, 3, 4, 5, 10)),
-    "rule": "unit = (order, N, duration word, scale); every unit applies, to the full data basis + generic dyadic data: two start-time shifts (coefficients/energy/gradients bitwise unchanged, knots shifted), a dyadic translation (row c0 translated, rest unchanged), data x 2^k (exact), durations x 2^k with boundary derivatives rescaled (exact, incl. gradient scaling laws), and time reversal (curve on a probe grid for all derivative orders, energy, mirrored gradients); non-trivial = N >= 2 or non-palindromic durations",
+    "rule": "unit = (order, N, duration word, scale); every unit applies, to the full data basis + generic dyadic data: two start-time shifts, fresh and by update() (coefficients/energy/gradients/energy partials bitwise unchanged, knots shifted; values of every derivative order at start + u, the sampled arc length through both overloads and the time grid bitwise unchanged relative to the start), a map-frame shift 1.7e9 + 0.3 on non-dyadic durations, a dyadic translation (row c0 translated, rest unchanged), data x 2^k (exact), durations x 2^k for k in {-6,-2,3,10} with boundary derivatives rescaled (exact, incl. gradient scaling laws), and time reversal (curve on a probe grid for all derivative orders, energy, mirrored gradients); non-trivial = N >= 2 or non-palindromic durations",
     "bounds": {"quick": "3 orders x D 1..4 x (N 1..4 all 3^N words, N 5,6 all 2^N)", "thorough": "3 orders x D {1,2,3,4,5,10} x (N 1..8 all 3^N words, N 9,10 all 2^N) x 3 scales"},
     "thresholds": {"power-of-two relations and start shift": "bitwise", "translation / reversal (C02 metric)": [3e-9, 1e-8, 1e-6]},
     "assumptions": ASSUME_COMMON,
@@ -266,7 +266,7 @@ CHECKS["C16"] = {
     "engine": "E1 lattice explorer + exhaustive initialisation histories",
     "jobs": lambda tier: [job("C16.cpp", "C16")],
     "rule": "unit = (order, DIM in {1,2}, N in {1,2,3}); states = distinct fault placements / initialisation sequences; for EVERY scalar input field (start time, each duration, each waypoint coordinate, each component of the six boundary vectors) x {NaN,+inf,-inf}, 7 duration values on both sides of 1 ms (nextbelow, exact, nextabove, 0, -1, denormal, 0.00099999), 7 size/ordering faults, and all pairs of faults, through both overloads on a fresh optimizer: return value = isValid() = bool(opt) = reference predicate (which knows which boundary fields the order uses), message present iff invalid, checkValidity(&msg) agrees with the predicate on the STORED problem and msg empty iff valid; plus ALL sequences of length <= 3 over 14 initialisations (2 valid problems, 5 invalid kinds, both overloads) on one object; PPolyND: breakpoint counts {0,1,2,5} x coefficient counts {0,1,4,ORDER+1} x row count off by {-1,0,+1} x {constructor, update after a valid state} for 5 instantiations: isInitialized / getNumSegments()==0 / recovery, at(i) throws exactly for i outside [0,n) over {INT_MIN,-2,-1,0..n-1,n,n+1,INT_MAX}",
-    "bounds": {"quick": "3 orders x DIM {1,2} x N {1,2,3}: all single faults + all pairs of a reduced fault list, both overloads; 14 + 196 + 2744 histories per (order, DIM)", "thorough": "same (the space is enumerated completely in both tiers)"},
+    "bounds": {"quick": "3 orders x DIM {1,2} x N {1,2,3}: all single faults + all pairs of a reduced fault list, both overloads; 14 + 196 + 2744 histories per (order, DIM); PPolyND: 5 instantiations x all sequences of <= 2 construct/update requests over (breakpoint count, coefficient count, row count)", "thorough": "same (the space is enumerated completely in both tiers); PPolyND request histories to depth 3 instead of 2"},
     "thresholds": {"verdicts": "exact"},
     "assumptions": ["built without -ffast-math (under the suite's flags finiteness checks are unreliable)", "the model keeps the stored problem separately from the verdict: a failed time-point call with an empty vector sets the flag and message but leaves the stored problem (and a later checkValidity()) untouched"],
     "technique": "bounded exhaustive enumeration of fault placements (every field x every non-finite value, threshold-adjacent durations, size faults, all pairs) and of all initialisation sequences to depth 3 on the real code; oracle = validity predicate R4",
